@@ -1,6 +1,6 @@
 """Helpers shared by the per-property harnesses: models, concretisation, path validation."""
 import z3
-from .core import Sym, SInt, SBool, SStr, SSet, SSeq, MSet, Lit, IntLit, Val, Rep, SetLit, Undecided
+from .core import Sym, SInt, SBool, SStr, SSet, SSeq, MSet, Lit, IntLit, Val, Rep, SetLit, SeqLit, Undecided
 
 
 def model_of(constraints, rlimit=20000000):
@@ -42,6 +42,8 @@ def concretize(v, model, depth=0):
                 out.append(ev(model, a.v))
             elif isinstance(a, SetLit):
                 out.append(a.sep.join(map(str, sorted(concretize(a.sset, model)))))
+            elif isinstance(a, SeqLit):
+                out.append(a.sep.join(str(x) for x in concretize(a.seq, model)))
             elif isinstance(a, Rep):
                 n = ev(model, a.seq.length)
                 out.append(a.sep.join([a.pattern] * n))
@@ -78,3 +80,20 @@ def concretize(v, model, depth=0):
     if isinstance(v, dict):
         return {k: concretize(x, model) for k, x in v.items()}
     return v
+
+
+def split_atoms(s, sep):
+    """Structural split of a string with holes at the occurrences of `sep` inside literal atoms
+    (post-processing of results by the harnesses; the caller guarantees holes exclude sep)."""
+    from .core import mkstr
+    s = SStr.of(s)
+    pieces = [[]]
+    for a in s.atoms:
+        if isinstance(a, Lit):
+            chunks = a.s.split(sep)
+            pieces[-1].append(Lit(chunks[0]))
+            for c in chunks[1:]:
+                pieces.append([Lit(c)])
+        else:
+            pieces[-1].append(a)
+    return [mkstr(SStr(p)) for p in pieces]
